@@ -26,6 +26,7 @@ class ParserSessionProp(object):
     big_batch_rate = {'quick': 0.0, 'thorough': 0.0}
     penalty_choices = (0.0, 0.1, 0.1, 1.0, 10.0, -0.5, -2.0)   # the repository accepts any float
     rich_tokens = False
+    build_variants = ('release', 'assert')   # per run: flags of the shipped extension (-DNDEBUG -O3) or assertions alive
     rule = ''
 
     # ------------------------------------------------------------ generation
@@ -148,8 +149,11 @@ class ParserSessionProp(object):
         import numpy
         rng = gen.stream(seed, self.id + ':scale', index)
         nprng = gen.np_stream(rng)
-        if rng.random() < 0.5:
+        r = rng.random()
+        if r < 0.45:
             return self.generate_dense_long(seed, index, tier, rng, nprng)
+        if r < 0.62:
+            return self.generate_very_long(seed, index, tier, rng, nprng)
         T = rng.choice([64, 130, 260, 425])
         cats = [f'T{k}' for k in range(T)]
         head = rng.random() < 0.5
@@ -175,6 +179,40 @@ class ParserSessionProp(object):
         ops = [dict(cfg, op='call', batch=[0, 1, 2, 3], processes=2, max_chunk_size=20),
                dict(cfg, op='call', batch=[3, 0, 2], processes=2, max_chunk_size=1,
                     schedule={'default_service': 0.05, 'start_delay': {'0': 2.0, '1': 1.0, '2': 0.0}})]
+        return {'prop': self.id, 'seed': seed, 'index': index, 'world': wspec, 'ops': ops,
+                'knobs': {'family': 'scale', 'fault_class': 'none', 'nbest': 1}, 'executor': 'inprocess'}
+
+    def generate_very_long(self, seed, index, tier, rng, nprng):
+        """the third scale dimension: sentences of 255-640 words (the caller raised max_length, as --max-length
+        does).  The grammar only lets a core word absorb its left and right neighbours one at a time and the model
+        is certain of its tags, so the chart has O(n^2) entries and even an exhaustive search is cheap; which
+        neighbour is absorbed first is decided by the dependency scores."""
+        import numpy
+        T = rng.choice([64, 130])
+        cats = [f'T{k}' for k in range(T)]
+        head = rng.random() < 0.5
+        table = {'T1 || T0': [['T0', 'r1', '<r1>', head]], 'T0 || T2': [['T0', 'r2', '<r2>', head]]}
+        unary = {'T3': [['T0', 'u0', '<u0>']]}
+        sentences = []
+        main = rng.choice([255, 256, 257, 300, 511, 512, 513, 640])
+        for sid, n in enumerate([rng.choice([9, 33]), main, 1, rng.choice([2, 5])]):
+            logits = nprng.normal(0.0, 1.0, size=(n, T))
+            core = rng.randrange(n)
+            for i in range(n):
+                logits[i, 1 if i < core else 2 if i > core else rng.choice([0, 3])] += 24.0
+            dl = nprng.normal(0.0, 1.0, size=(n, n + 1))
+            tag = (logits - numpy.log(numpy.exp(logits).sum(axis=1, keepdims=True))).astype(numpy.float32)
+            dep = (dl - numpy.log(numpy.exp(dl).sum(axis=1, keepdims=True))).astype(numpy.float32)
+            sentences.append({'words': [f's{sid}x{i}' for i in range(n)], 'tag': gen.arr_to_hex(tag),
+                              'dep': gen.arr_to_hex(dep), 'style': 'continuous', 'rich': False, 'favoured': None})
+        wspec = {'family': 'scale',
+                 'grammar': {'kind': 'synth', 'heads': 'left' if head else 'right', 'binary': table, 'unary': unary,
+                             'categories': cats, 'roots': ['T0'], 'lang': 'en'},
+                 'sentences': sentences}
+        cfg = {'unary_penalty': 0.1, 'beta': 1e-5, 'use_beta': True, 'pruning_size': rng.choice([50, 3]),
+               'nbest': 1, 'max_step': 3000000, 'max_length': rng.choice([main, main + 1, 1000])}
+        ops = [dict(cfg, op='call', batch=[0, 1, 2, 3], processes=2, max_chunk_size=20),
+               dict(cfg, op='call', batch=[1, 3], processes=2, max_chunk_size=1)]
         return {'prop': self.id, 'seed': seed, 'index': index, 'world': wspec, 'ops': ops,
                 'knobs': {'family': 'scale', 'fault_class': 'none', 'nbest': 1}, 'executor': 'inprocess'}
 
